@@ -77,6 +77,114 @@ theorem noWrap_of_small (inp : Inp)
     unfold W
     omega
 
+theorem resolve_bound (B : Nat) : ∀ (bl : List (Option Nat × Nat)) (prev : Nat), prev < B →
+    (∀ b ∈ bl, b.1.getD 0 + b.2 < B) → ∀ L ∈ resolve prev bl, L < B := by
+  intro bl
+  induction bl with
+  | nil => intro prev _ _ L hL; simp [resolve] at hL
+  | cons b rest ih =>
+    intro prev hp hb L hL
+    obtain ⟨w, kv⟩ := b
+    have hb0 := hb (w, kv) (by simp)
+    cases w with
+    | none =>
+      simp only [resolve, List.mem_cons] at hL
+      rcases hL with rfl | hL
+      · exact hp
+      · exact ih prev hp (fun b hb' => hb b (by simp [hb'])) L hL
+    | some w =>
+      simp only [resolve, List.mem_cons] at hL
+      have hw : wr (w + kv) < B := Nat.lt_of_le_of_lt (wr_le _) (by simpa using hb0)
+      rcases hL with rfl | hL
+      · exact hw
+      · exact ih _ hw (fun b hb' => hb b (by simp [hb'])) L hL
+
+/-- **The guard from bounds on the RAW inputs** (what the estimator reads from the file and the
+    environment, before any of its own sums): projector / vision figures, per-block weight + KV sizes,
+    the two `GraphSize` figures and the GQA fallback `gqa * Σ kv / 6`, the output tensors, every GPU's
+    free / minimum memory and the overhead each below 2^40 (1 TiB), fewer than 2^16 blocks, at most 2^8
+    GPUs.  Unlike `noWrap_of_small` no hypothesis mentions a derived (possibly already wrapped) constant. -/
+theorem noWrap_of_small_raw (inp : Inp)
+    (hov : inp.overhead < 2 ^ 40)
+    (hproj : (inp.projs.map (·.1)).sum + (inp.projs.map (·.2)).sum < 2 ^ 40 ∧ inp.vision.1 + inp.vision.2 < 2 ^ 40)
+    (hblk0 : inp.blk0.getD 0 + (inp.blocks.head?.map (·.2)).getD 0 < 2 ^ 40)
+    (hblocks : ∀ b ∈ inp.blocks, b.1.getD 0 + b.2 < 2 ^ 40)
+    (hgraph : inp.graphPartial < 2 ^ 40 ∧ inp.graphFull < 2 ^ 40 ∧ inp.gqa * (inp.blocks.map (·.2)).sum < 6 * 2 ^ 40)
+    (hout : inp.outNorm.getD 0 + inp.output.getD 0 < 2 ^ 40 ∧ inp.outNorm.getD 0 + inp.tokenEmbd.getD 0 < 2 ^ 40)
+    (hn : inp.blocks.length < 2 ^ 16)
+    (hgpus : ∀ g ∈ inp.gpus, g.free < 2 ^ 40 ∧ g.minimum < 2 ^ 40)
+    (hng : inp.gpus.length ≤ 2 ^ 8) : NoWrap inp := by
+  have hl0 : layer0 inp < 2 ^ 40 := by
+    unfold layer0
+    cases hb : inp.blocks with
+    | nil => rw [hb] at hblk0; simpa using hblk0
+    | cons b rest =>
+      rw [hb] at hblk0
+      simp only [List.head?_cons, Option.map_some, Option.getD_some] at hblk0
+      exact Nat.lt_of_le_of_lt (wr_le _) hblk0
+  have hls : ∀ L ∈ resolve (layer0 inp) inp.blocks, L < 2 ^ 40 :=
+    resolve_bound (2 ^ 40) inp.blocks (layer0 inp) hl0 hblocks
+  have hgz : (mkCore inp).gzo < 2 ^ 40 := by
+    have h1 := accW_le (inp.projs.map (·.1)) 0
+    have h2 := accW_le (inp.projs.map (·.2)) 0
+    have : (mkCore inp).gzo = wr ((projTotals inp).1 + (projTotals inp).2) := rfl
+    rw [this]
+    refine Nat.lt_of_le_of_lt (wr_le _) ?_
+    unfold projTotals
+    simp only
+    split
+    · exact hproj.2
+    · simp only; omega
+  have hkv : kvTotal inp ≤ (inp.blocks.map (·.2)).sum := by
+    have := accW_le (inp.blocks.map (·.2)) 0
+    simpa [kvTotal] using this
+  have hgp0 : (if inp.graphPartial == 0 then wr (inp.gqa * kvTotal inp) / 6 else inp.graphPartial) < 2 ^ 40 := by
+    split
+    · have h1 : wr (inp.gqa * kvTotal inp) ≤ inp.gqa * (inp.blocks.map (·.2)).sum :=
+        Nat.le_trans (wr_le _) (Nat.mul_le_mul_left _ hkv)
+      have := hgraph.2.2
+      omega
+    · exact hgraph.1
+  have hgs : (graphs inp).1 < 2 ^ 40 ∧ (graphs inp).2 < 2 ^ 40 := by
+    unfold graphs
+    simp only
+    have hgf0 : (if inp.graphFull == 0 then (if inp.graphPartial == 0 then wr (inp.gqa * kvTotal inp) / 6 else inp.graphPartial)
+        else inp.graphFull) < 2 ^ 40 := by
+      split
+      · exact hgp0
+      · exact hgraph.2.1
+    split
+    · exact ⟨hgf0, hgf0⟩
+    · split
+      · exact ⟨hgp0, hgp0⟩
+      · exact ⟨hgp0, hgf0⟩
+  have hmo : memOut inp < 2 ^ 40 := by
+    unfold memOut
+    simp only
+    cases ho : inp.output with
+    | some o => rw [ho] at hout; simp only [Option.getD_some] at hout; exact Nat.lt_of_le_of_lt (wr_le _) hout.1
+    | none =>
+      cases ht : inp.tokenEmbd with
+      | some t => rw [ht] at hout; simp only [Option.getD_some] at hout; exact Nat.lt_of_le_of_lt (wr_le _) hout.2
+      | none =>
+        rw [ho] at hout
+        simp only [Option.getD_none, Nat.add_zero] at hout
+        exact hout.1
+  have hlast : lastLayer (mkCore inp) < 2 ^ 40 := by
+    have : lastLayer (mkCore inp) = (resolve (layer0 inp) inp.blocks).getLastD (layer0 inp) := rfl
+    rw [this]
+    cases hr : resolve (layer0 inp) inp.blocks with
+    | nil => simpa using hl0
+    | cons a rest =>
+      have hmem : (a :: rest).getLastD (layer0 inp) ∈ a :: rest := by
+        rw [List.getLastD_eq_getLast?, List.getLast?_eq_some_getLast (by simp)]
+        exact List.getLast_mem _
+      rw [hr] at hls
+      exact hls _ hmem
+  exact noWrap_of_small inp hov
+    ⟨hgz, hgs.1, hgs.2, hl0, hmo, hlast, fun L hL => hls L hL⟩ hn hgpus hng
+
+
 /-! ### shape of the estimate -/
 
 def partialReq (inp : Inp) : Nat := accW 0 ((plan (mkCore inp) inp.gpus).gs.map (·.alloc))
@@ -973,5 +1081,11 @@ example : HistOk exTotal [] exHist ∧ (runEvs [] exHist).length = 2 ∧
     simp only [Decision.load.injEq] at h
     obtain ⟨_, rfl, rfl⟩ := h
     decide
+
+
+/-- non-vacuity of `noWrap_of_small_raw`: its raw-input hypotheses hold for `ex3` -/
+example : NoWrap ex3 :=
+  noWrap_of_small_raw ex3 (by decide) (by decide) (by decide) (by decide) (by decide) (by decide) (by decide)
+    (by decide) (by decide)
 
 end OllamaVerif.C16
